@@ -1053,8 +1053,15 @@ impl ReCompiler {
         if matches!(op1, Operation::EndProgram(_)) {
             return !reluctant;
         }
-        if matches!(op1, Operation::Bol(_)) || matches!(op1, Operation::Eol(_)) {
-            return true;
+        if matches!(op1, Operation::Bol(_)) {
+            // '^' can only hold before the first repetition, so the shorter
+            // runs must stay reachable
+            return false;
+        }
+        if matches!(op1, Operation::Eol(_)) {
+            // '$' may hold before a line feed: giving back repetitions only
+            // helps if the repeated term can itself match a line feed
+            return !op0.get_initial_character_class(case_blind).contains('\n');
         }
         if let Some(repeat_operation) = op1.repeat_operation() {
             if repeat_operation.min() == 0 {
